@@ -219,7 +219,12 @@ func (g *gen) expr(t string, depth int) expr {
 		switch g.pick("numform", 10) {
 		case 0, 1, 2, 3: // arithmetic
 			ops := []string{"+", "-", "*"}
-			if isInt(t) {
+			// & and | are only generated on plain int: ego converts both
+			// operands to int and returns an int for every integer type (its
+			// own unit tests pin that), which differs from Go for the other
+			// widths -- recorded as a known finding of C01, kept out of the
+			// search by construction.
+			if t == "int" {
 				ops = append(ops, "&", "|")
 			}
 			op := rapid.SampledFrom(ops).Draw(g.t, "op")
